@@ -163,6 +163,9 @@ def jobs(tier):
         add('star_eps_unicode', job_star, n=2, k=2, eps='ε', names=['s', 't'])
         add('star_explicit_generator', job_star, n=2, k=1, eps='', names=['q0', 'q1'], explicit_generator=True)
         add('star_n1', job_star, n=1, k=1, eps='', names=['q0'])
+        # generated names of different widths (q9 / q10: comparing names as strings instead of numbers goes wrong here)
+        add('star_names_q9_q10', job_star, n=2, k=1, eps='', names=['q9', 'q10'], K=10)
+        add('union_names_q9_q10', job_binary, op='union', n1=1, n2=1, k=1, eps1='', eps2='', names1=['q9'], names2=['q10'], K=10)
     else:
         for op in ('union', 'concatenation'):
             add('%s_2_2_gen_names' % op, job_binary, op=op, n1=2, n2=2, k=1, eps1='', eps2='_', names1=['q0', 'q1'], names2=['q2', 'q3'], timeout=3000)
